@@ -151,17 +151,22 @@ Proof. apply lor_shiftl_add. Qed.
 
 (** Linear-time variants used where the models are *run* on long strings (2048-bit moduli): Horner decoding and
     least-significant-first encoding with shifts; each is proved equal to the specification form above. *)
-Definition be_dec_h (l : list byte) : N := fold_left (fun acc b => acc * 256 + b2n b) l 0.
+(** multiplication by 256 is a shift (8 constructors, not a pass over the number) and the low byte is a mask *)
+Definition n2b_f (n : N) : byte :=
+  match Byte.of_N (N.land n 255) with Some b => b | None => x00 end.
+Lemma n2b_f_eq n : n2b_f n = n2b n.
+Proof. unfold n2b_f, n2b. change 255 with (N.ones 8). now rewrite N.land_ones. Qed.
+Definition be_dec_h (l : list byte) : N := fold_left (fun acc b => N.shiftl acc 8 + b2n b) l 0.
 Fixpoint be_enc_acc (k : nat) (v : N) (acc : list byte) : list byte :=
-  match k with O => acc | S k' => be_enc_acc k' (N.shiftr v 8) (n2b v :: acc) end.
+  match k with O => acc | S k' => be_enc_acc k' (N.shiftr v 8) (n2b_f v :: acc) end.
 Definition be_enc_f (k : nat) (v : N) : list byte := be_enc_acc k v [].
 
 Lemma be_dec_h_gen l acc :
-  fold_left (fun acc b => acc * 256 + b2n b) l acc = acc * 256 ^ N.of_nat (length l) + be_dec l.
+  fold_left (fun acc b => N.shiftl acc 8 + b2n b) l acc = acc * 256 ^ N.of_nat (length l) + be_dec l.
 Proof.
   revert acc. induction l as [|b t IH]; intro acc; cbn [fold_left be_dec length].
   - cbn. lia.
-  - rewrite IH, Nat2N.inj_succ, N.pow_succ_r'. lia.
+  - rewrite IH, N.shiftl_mul_pow2, Nat2N.inj_succ, N.pow_succ_r'. change (2 ^ 8) with 256. lia.
 Qed.
 Lemma be_dec_h_eq l : be_dec_h l = be_dec l.
 Proof. unfold be_dec_h. rewrite be_dec_h_gen. lia. Qed.
@@ -177,7 +182,7 @@ Qed.
 Lemma be_enc_acc_eq k v acc : be_enc_acc k v acc = be_enc k v ++ acc.
 Proof.
   revert v acc. induction k as [|k IH]; intros v acc; [reflexivity|].
-  cbn [be_enc_acc]. rewrite IH, N.shiftr_div_pow2, be_enc_snoc, <- app_assoc. reflexivity.
+  cbn [be_enc_acc]. rewrite IH, n2b_f_eq, N.shiftr_div_pow2, be_enc_snoc, <- app_assoc. reflexivity.
 Qed.
 Lemma be_enc_f_eq k v : be_enc_f k v = be_enc k v.
 Proof. unfold be_enc_f. now rewrite be_enc_acc_eq, app_nil_r. Qed.
